@@ -310,8 +310,14 @@ kf("C18", "C18-int-float-operand-mix", "integer `%` on u32 vectors (and some con
    ["C18|func.type-check|*has type float, the record implies i#|*", "C18|func.type-check|*has type i#, the record implies float|*"])
 kf("C18", "C18-i8-constant-argument", "dx.op calls for countLeadingZeros/sign/extractBits/insertBits, and unary `-`/`~`, on 4-component vectors pass an i8-typed constant where the callee expects i32",
    ["C18|func.type-check|*has type i#, the record implies i#|F1/call/*", "C18|func.type-check|*has type i#, the record implies i#|F1/un/*/vec4<*"])
+kf("C18", "C18-nondeterministic-phi-order", "dxil.Compile gave different bytes from call to call for a function with two or more promotable locals assigned in one control-flow arm: mem2reg appended the phi expressions in Go's randomised map iteration order",
+   ["C18|nondeterministic|F2L", "C18|nondeterministic|F2"], "fixed:6812b90")
+kf("C18", "C18-dead-code-after-block-return", "a `return` that follows a block which itself returns (`{ return a; } return a;` — valid WGSL, dead code) is emitted as an instruction record after the terminator of the last basic block",
+   ["C18|func.terminators|function @*: instruction record (code #) after the terminator of the last declared block*|F2*"])
 kf("C18", "C18-bool-width", "boolean values are materialised inconsistently as i1 and i32: zext/sext from i32 to i32 for `!` on bool vectors, i32 stored through an i1 pointer for `&&`",
-   ["C18|func.type-check|*invalid zext/sext|*", "C18|func.type-check|*does not match pointee type i#|*"])
+   ["C18|func.type-check|*invalid zext/sext|*", "C18|func.type-check|*does not match pointee type i#|*",
+    "C18|func.type-check|*operand value # has type i#, the record implies i#|F4c/*bin:&&:bool:bool*", "C18|func.type-check|*operand value # has type i#, the record implies i#|F4c/*bin:||:bool:bool*",
+    "C18|func.type-check|*select condition has type i#, want i# or <n x i#>|F4c/*bin:&&:bool:bool*", "C18|func.type-check|*select condition has type i#, want i# or <n x i#>|F4c/*bin:||:bool:bool*"])
 kf("C18", "C18-switch-phi-dominance", "switch statements assigning a variable produce phi nodes whose incoming values are defined in non-dominating blocks / forward references of the wrong type (debug-symbol-terrain)",
    ["C18|func.ssa|*phi*|corpus/debug-symbol-*", "C18|func.type-check|*forward reference*|corpus/debug-symbol-*"])
 kf("C18", "C18-gep-flattened-struct", "a nested struct local is flattened but the member GEP keeps the nested source element type (corpus/access)",
